@@ -110,7 +110,13 @@ func textClass(s string) string {
 		rest := s[i+1:]
 		switch {
 		case len(rest) > 0 && isAlpha(rest[0]):
+			if tagNameOddEnd(rest) {
+				return "K28"
+			}
 		case len(rest) > 1 && rest[0] == '/' && isAlpha(rest[1]):
+			if tagNameOddEnd(rest[1:]) {
+				return "K28"
+			}
 		case strings.HasPrefix(rest, "!--"):
 			body := rest[3:]
 			if strings.HasPrefix(body, ">") || strings.HasPrefix(body, "->") {
@@ -127,6 +133,34 @@ func textClass(s string) string {
 		}
 	}
 	return ""
+}
+
+// tagNameOddEnd: the tag name (as the engine reads it: letters, digits, ':' or '-' followed by
+// a letter or digit) is followed by a byte other than ASCII white space, '/' or '>'. HTML5
+// continues the tag name there, the engine ends it (known finding K28).
+func tagNameOddEnd(s string) bool {
+	i := 0
+	for i < len(s) {
+		c := s[i]
+		alnum := isAlpha(c) || '0' <= c && c <= '9'
+		if alnum {
+			i++
+			continue
+		}
+		if (c == ':' || c == '-') && i+1 < len(s) && (isAlpha(s[i+1]) || '0' <= s[i+1] && s[i+1] <= '9') {
+			i += 2
+			continue
+		}
+		break
+	}
+	if i >= len(s) {
+		return false
+	}
+	switch s[i] {
+	case ' ', '\t', '\n', '\f', '\r', '/', '>':
+		return false
+	}
+	return true
 }
 
 func tokAll(s string) []htmltok.Result {
@@ -227,7 +261,9 @@ func checkOne(c *core.Ctx, text string, hs, is gen.DataSpec, verbose bool) {
 	c.Count("accepted_hostile_executions", 1)
 	tokH := tokAll(rH.Out)
 	// oracle 1
-	if rI.ExecErr == nil {
+	if class == "K28" && !c.Strict {
+		c.Count("oracle1_excluded_by_known:K28", 1)
+	} else if rI.ExecErr == nil {
 		c.Count("oracle1_compared", 1)
 		for i, m := range modes {
 			sh, si := htmltok.Structure(tokH[i]), htmltok.Structure(tokI[i])
@@ -238,6 +274,13 @@ func checkOne(c *core.Ctx, text string, hs, is gen.DataSpec, verbose bool) {
 		}
 	}
 	// oracle 3
+	if class == "K28" && !c.Strict {
+		// the engine and HTML5 disagree on which element this is (known finding K28): where the
+		// datum lies in the browser's reading is not what the engine analysed
+		c.Count("oracle3_excluded_by_known:K28", 1)
+		c.DistinctS(text)
+		return
+	}
 	rendered := false
 	for i, m := range modes {
 		if modeDep[i] && !c.Strict {
